@@ -490,6 +490,11 @@ class SourceCatalog:
         for attr in init_attr:
             setattr(newcls, attr, getattr(self, attr))
 
+        # the new object gets its own list of extra-property names;
+        # otherwise adding, renaming or removing an extra property on
+        # one object would change the list of the other
+        newcls._extra_properties = self._extra_properties.copy()
+
         # _labels determines ordering and isscalar
         attr = '_labels'
         setattr(newcls, attr, getattr(self, attr)[index])
